@@ -569,7 +569,7 @@ def jobs(tier):
     multi = ["features/steps/test_files/sld-slides.pptx", "features/steps/test_files/shp-shapes.pptx",
              "features/steps/test_files/cht-charts.pptx", "tests/test_files/test.pptx"]
     decks += ["%s|%s" % (d, how) for d in multi for how in ("rotate", "gap", "orphan", "shift1")]
-    n = 40 if tier == "thorough" else 10
+    n = 40 if tier == "thorough" else 14
     js = [{"decks": decks[i::16], "n": n} for i in range(16)]
     # the generated deck is the richest one: several jobs (= several seeds) of plans of its own
     js += [{"decks": ["generated"], "n": 40 if tier == "thorough" else 12} for _ in range(8 if tier == "thorough" else 4)]
